@@ -2,14 +2,23 @@
 
 State space (DESIGN section 4, C03): compounds x density forms x wavelength forms.
   atoms      every atom with neutron data (elements and isotopes, decided by the independent table
-             reader) one at a time, every ion of 12 representative elements, three isotope ions
+             reader) one at a time, every ion of 12 representative elements, seven isotope ions
   compounds  all unordered pairs over the class-representative alphabet K (32 atoms: light, negative b,
-             strong absorbers, sigma_i dominated, all 15 table-driven entries, ions) with counts from
-             {1, 2, 0.5}^2; thorough: all triples over a 9-atom sub-alphabet with counts {1, 2, 0.5}^3
-  density    {0.07, 1, 2.33, 25} as density=, natural_density= (neutral atoms only), '@d' and '@dn' tags
+             strong absorbers, sigma_i dominated, all 15 table-driven entries, ions, an isotope ion; atoms that
+             differ only in isotope or only in charge occur together) with counts from {1, 2, 0.5}^2;
+             thorough: all triples over a 9-atom sub-alphabet with counts {1, 2, 0.5}^3
+  density    {0.07, 1, 2.33, 25} as density=, natural_density=, '@d' and '@dn' tags - natural density also
+             for ions and isotope ions (the natural atom keeps the charge)
   wavelength {0.05, 0.5, 1, 1.798, 4.75, 10, 50} plus, for every table-driven atom of the compound, every
              table node, every midpoint and one point beyond each end (thorough: also quarter points);
              each also as energy=; scalar and vectors of length 1, 2, 5 and the whole grid
+  histories  the caller keeps ONE compound object (a Formula with its own density / a fragment list / an atom) and
+             ONE wavelength buffer (numpy array / list; also a scalar) and calls twice: all ordered pairs of call configurations
+             (density of the Formula assigned in place | density= | natural_density=) x (two wavelength vectors,
+             the buffer refilled in place) x (wavelength= | energy=) x (compound | atom queried directly | the Formula's
+             own neutron_sld method); every
+             call is compared with the reference for the values at the time of the call, and the argument objects
+             must come back unaltered (thorough: all ordered triples for 9 atoms)
 Oracle: mc/ref/neutron.py (docstring equations in plain floats on independently parsed tables); all
 seven outputs compared.  Differential: atom.neutron.scattering()/.sld() against the same equations at the
 element's number density and against neutron_scattering(atom, density=atom.density).  A compound that
@@ -25,25 +34,40 @@ META = dict(
               "calculator against an independent evaluation of the documented equations",
     rule=("a case is (route, compound, construction form, density form, wavelength form); cases are distinct by "
           "construction (every atom of the table once; every unordered pair of the class alphabet with every count "
-          "pair; every table node / midpoint / outside point of every table-driven atom); non-trivial = the "
-          "compound has data, so seven reference values exist and are compared"),
+          "pair; every table node / midpoint / outside point of every table-driven atom); a history case is "
+          "(compound, kind of compound object, kind of wavelength buffer, ordered pair of call configurations) "
+          "executed on the same caller-owned objects, the buffer refilled and the Formula's density assigned in place "
+          "between the calls; non-trivial = the compound has data, so seven reference values exist and are compared"),
     bound=dict(
-        quick="all atoms with data + all ions of 12 elements; all pairs over the 32-atom class alphabet x 9 count pairs; "
-              "4 densities x 4 density forms; 7 global wavelengths + all nodes/midpoints/outside points of the "
-              "energy tables; wavelength= and energy=; scalar and vectors of length 1, 2, 5, full grid",
+        quick="all atoms with data + all ions of 12 elements + 7 isotope ions; all pairs over the 32-atom class "
+              "alphabet x 9 count pairs; 4 densities x 4 density forms (natural density also for ions and isotope "
+              "ions); 7 global wavelengths + all nodes/midpoints/outside points of the energy tables; wavelength= and "
+              "energy=; scalar and vectors of length 1, 2, 5, full grid; histories: all ordered pairs of 16+4 (Formula, with its own "
+              "neutron_sld method), "
+              "12 (list), 12+4 (atom, with the direct queries) configurations x {array, list, scalar} wavelength arguments for the 32+6 "
+              "one-atom compounds and the 36 pairs over the 9-atom sub-alphabet",
         thorough="quick + all triples over a 9-atom sub-alphabet x 27 count triples; quarter points between table "
-                 "nodes; node sweeps in every density form at density 1 and with density=25"),
+                 "nodes; node sweeps in every density form at density 1 and with density=25; histories for all 496 "
+                 "pairs over the class alphabet, all ordered TRIPLES of configurations for the 9 one-atom compounds of "
+                 "the sub-alphabet"),
     assumptions=[
         "the embedded table text (nsf.nsftable, nsf_tables, mass, density) is the source of truth; that the library "
         "serves those values is C06/C07",
         "physical constants are read from periodictable.constants",
-        "ion mass = neutral mass - charge * electron mass (core.Ion.mass); ions are given an explicit density= "
-        "(natural_density of an ion is C12 territory and not used here)",
+        "ion mass = neutral mass - charge * electron mass (core.Ion.mass); the natural-abundance counterpart of an "
+        "ion or isotope ion is the ion of the natural element with the same charge (docstring of natural_density: "
+        "naturally occurring isotopes, no change in cell volume)",
         "natural Lu is the abundance mix of constant Lu-175 and the Lu-176 table; either abundance column (mass "
         "table or neutron table) is accepted because the text does not say which",
         "Pu and Cm elements (record borrowed from one isotope row), Ra and the free neutron (data but no density) "
         "are outside the alphabet; rho_im is compared with -10 N Im(b_c) (all tabulated Im(b_c) are <= 0)",
         "off-grid real wavelengths/densities are not claimed",
+        "caller-owned argument objects: the documented attributes of a Formula (structure, density, name), the items "
+        "of a fragment list and the bytes / items of a wavelength or energy vector must be the same after a call as "
+        "before; private memo attributes a refactoring might add to a Formula are not looked at.  Table atoms are "
+        "library objects; their state is C09/C10",
+        "history cases use vectors of length 3 and scalars; compound strings are immutable and their repeated use is "
+        "covered by the order of the plain cases only",
     ],
     level_text="bounded-exhaustive: complete over the atoms of the table and over the nodes of the energy tables, "
                "bounded (pairs / triples over a class alphabet) for compounds, grid for the real parameters",
@@ -55,7 +79,8 @@ GLOBAL_WL = (0.05, 0.5, 1.0, 1.798, 4.75, 10.0, 50.0)
 DENSITIES = (0.07, 1.0, 2.33, 25.0)
 COUNTS = (1, 2, 0.5)
 ION_ELEMENTS = ("H", "O", "Fe", "Cl", "Na", "Ca", "Gd", "Sm", "Cu", "U", "Ti", "Mn")
-ISOTOPE_IONS = (("O", 18, -2), ("Fe", 56, 3), ("H", 2, 1), ("Gd", 157, 3))
+ISOTOPE_IONS = (("O", 18, -2), ("Fe", 56, 3), ("H", 2, 1), ("Gd", 157, 3), ("Li", 6, 1), ("Cl", 37, -1),
+                ("Sm", 149, 3))
 K = (("H", 0, 0), ("H", 2, 0), ("H", 1, 0), ("O", 0, 0), ("C", 0, 0), ("Si", 0, 0), ("Ti", 0, 0), ("Mn", 0, 0),
      ("V", 0, 0), ("B", 0, 0), ("B", 10, 0), ("Li", 6, 0), ("Cd", 0, 0), ("Cd", 113, 0),
      ("Sm", 0, 0), ("Sm", 149, 0), ("Eu", 0, 0), ("Eu", 151, 0), ("Gd", 0, 0), ("Gd", 155, 0), ("Gd", 157, 0),
@@ -264,8 +289,9 @@ class Checker(object):
     def refine_natural(self, fail, route, frags, dspec, wls):
         """A failing case whose density was given as natural density: if the same compound with the equivalent
         plain density= agrees with the reference, the cause is the conversion of the natural density, and the
-        signature says so (with the most specific kind of atom in the compound)."""
-        if dspec[0] not in ("natural", "tagn") or not fail["sig"].startswith("eq:") or route.startswith("direct"):
+        signature says so (with the most specific kind of atom in the compound).  Only for failures that one common
+        factor on the number density explains - that is what a wrong density does."""
+        if dspec[0] not in ("natural", "tagn") or not fail["sig"].startswith("eq:number-density:"):
             return fail
         try:
             dens = self.ref_density(frags, dspec)
@@ -310,7 +336,7 @@ class Checker(object):
             nd = None
             dens = self.ref_density(frags, dspec)
         variants = ("mass", "nsf") if any(k[:2] == ("Lu", 0) for c, k in frags) else ("mass",)
-        sld_only = route in ("sld", "direct_sld")
+        sld_only = route in ("sld", "direct_sld", "method_sld")
         # shape
         n = len(wls)
         try:
@@ -413,6 +439,9 @@ class Checker(object):
         else:
             raise MachineryError("form %r" % form)
         cfgs = [("compound", d, vi, how) for d in dens for vi in (0, 1) for how in ("wl", "en")]
+        if form == "formula":
+            # the Formula's own method (periodictable.neutron_sld on its atoms and density)
+            cfgs += [("method_sld", d, vi, "wl") for d in dens[:2] for vi in (0, 1)]
         if form == "atom" and frags[0][1][2] == 0:
             cfgs += [(r, ("atom",), vi, "wl") for r in ("direct", "direct_sld") for vi in (0, 1)]
         return cfgs
@@ -443,6 +472,8 @@ class Checker(object):
             c = {}
         if wkind == "array":
             c["buffer"] = (buf.dtype.str, buf.shape, buf.tobytes())
+        elif wkind == "scalar":
+            c["buffer"] = buf
         else:
             c["buffer"] = (type(buf).__name__, tuple(type(x).__name__ for x in buf), tuple(buf))
         return c
@@ -486,9 +517,12 @@ class Checker(object):
         buf = None
         for step, cfg in enumerate(hist):
             route, dens, vi, how = cfg
-            wls = V[vi]
+            wls = V[vi] if wkind != "scalar" else V[vi][:1]
             vals = list(wls) if how == "wl" else [rn.energy_of_wavelength(w) for w in wls]
-            if buf is None:
+            if wkind == "scalar":
+                buf = vals[0]                                   # immutable: the name is bound to the next value
+                lines.append("w = %r" % (buf,))
+            elif buf is None:
                 buf = np.array(vals, dtype=float) if wkind == "array" else list(vals)
                 lines.append("w = np.array(%r)" % (vals,) if wkind == "array" else "w = %r" % (vals,))
             else:
@@ -514,6 +548,11 @@ class Checker(object):
                 fn = pt.neutron_scattering
                 call = lambda: fn(comp, **kw)
                 lines.append("print(pt.neutron_scattering(comp, %s))" % ", ".join(ksrc))
+            elif route == "method_sld":
+                if form != "formula" or dens[0] != "own":
+                    raise MachineryError("method route in configuration %r" % (cfg,))
+                call = lambda: comp.neutron_sld(**kw)
+                lines.append("print(comp.neutron_sld(%s))" % ", ".join(ksrc))
             else:
                 if form != "atom" or how != "wl" or dens[0] != "atom":
                     raise MachineryError("direct route in configuration %r" % (cfg,))
@@ -525,6 +564,8 @@ class Checker(object):
             acc.evaluations += 1
             acc.transitions += 1
             changed = self.hist_changed(hist[step - 1], cfg) if step else []
+            if wkind == "scalar":
+                changed = ["wavelength" if x == "wavelengths-edited-in-place" else x for x in changed]
             tag = "first-call" if not step else ("+".join(changed) if changed else "repeat")
             fail = None
             try:
@@ -541,11 +582,14 @@ class Checker(object):
                     which = [k for k in sorted(before) if before[k] != after.get(k)]
                     label = {"buffer": "%s-%s" % ("wavelength" if how == "wl" else "energy", wkind),
                              "items": "compound-list"}.get(which[0], "formula." + which[0])
+                    show = {"buffer": "w", "items": "comp"}.get(which[0], "comp." + which[0])
                     acc.violation("argument-altered:%s" % label, dict(case, failing_step=step),
                                   "the caller's object unchanged: %r" % (before[which[0]],), repr(after.get(which[0])),
-                                  standalone=standalone, detail=dict(step=step, config=list(cfg), cls=cls))
+                                  standalone=standalone + "print(%s)\n" % show,
+                                  detail=dict(step=step, config=list(cfg), cls=cls))
                     return ("config", cfg)
-                fail = self.judge(got, route, frags, dspec, wls, "vector", how, count=False)
+                fail = self.judge(got, route, frags, dspec, wls, "scalar" if wkind == "scalar" else "vector", how,
+                                  count=False)
             if fail is None:
                 if not control:
                     acc.outcome("history step: %s" % tag)
@@ -758,7 +802,7 @@ def do_history(ck, frags, thorough, depth3=False):
         cfgs = ck.hist_configs(form, frags)
         pairs = [(a, b) for a in cfgs for b in cfgs]
         pairs.sort(key=lambda p: len(ck.hist_changed(*p)))
-        for wkind in ("array", "list"):
+        for wkind in ("array", "list", "scalar"):
             bad_cfg, broken = set(), []
             for a, b in pairs:
                 ch = frozenset(ck.hist_changed(a, b))
